@@ -9,9 +9,15 @@
         → (error class) | crash | (ok (c…) PI tc (calls all | (w a b lim) …))
           PI = none | (pi hasPrev hasNext start end)
 
+    (walk fwd|bwd all|window (E…) tc n (table …))          -- Walk.lean's client with the CONCRETE codec
+        → none | (ok ((page…)…) (sent "<cursor>"…))           (decK / encK): pages in connection order,
+                                                              the cursor strings in the order sent
+
   Optional integers are `none` or the integer. AFTER/BEFORE are `none` or `(s "<string>" D)` with
-  D = `invalid` or the integer the real DeserializeCursor produced for that string (the codec is a
-  parameter of the model). `table` lists the replies of the harness's window getter for the calls it
+  D = `model` (the string is a cursor of the harness's type `struct{K int; P string}`: the driver
+  decodes it itself with the codec model of Codec.lean, `decK`), or — for connections whose cursor
+  type the codec model does not cover — `invalid` or the integer the real DeserializeCursor produced
+  for that string (there the codec is a parameter of the model). `table` lists the replies of the harness's window getter for the calls it
   received; a call that is not in the table is answered with the empty list (the `calls` comparison
   then reports the disagreement).
 -/
@@ -19,6 +25,8 @@ import ApiFu.Common.Sexp
 import ApiFu.Common.Loop
 import ApiFu.C09.Model
 import ApiFu.C09.Spec
+import ApiFu.C09.CodecDriver
+import ApiFu.C09.Walk
 
 open ApiFu ApiFu.C09
 
@@ -46,6 +54,8 @@ def ofInts (xs : List Int) : Sexp := Sexp.list (xs.map Sexp.ofInt)
 def curArg? : Sexp → Option (Option String × Option Cursor)
   | Sexp.atom "none" => some (none, none)
   | Sexp.list [Sexp.atom "s", Sexp.atom str, Sexp.atom "invalid"] => some (some str, none)
+  -- the cursor string is decoded by the codec model (Codec.lean), not by the harness
+  | Sexp.list [Sexp.atom "s", Sexp.atom str, Sexp.atom "model"] => some (some str, ApiFu.C09.Codec.Driver.decK str)
   | Sexp.list [Sexp.atom "s", Sexp.atom str, d] => d.int?.map (fun n => (some str, some n))
   | _ => none
 
@@ -118,7 +128,39 @@ def handle (line : String) : String :=
         toString (Sexp.node "ok" [ofInts c.edges, piSexp c.pageInfo, ofOptInt c.totalCount,
                                   Sexp.node "calls" (c.calls.map callSexp)])
     | _, _, _, _, _, _, _ => "bad-op"
-  | _ => "bad-op"
+  | some (Sexp.list [Sexp.atom "walk", Sexp.atom dir, Sexp.atom mode, es, tc, n, Sexp.list (Sexp.atom "table" :: tbl)]) =>
+    match ints? es, optInt? tc, n.nat?, tbl.mapM tableEntry? with
+    | some es, some tc, some n, some tbl =>
+      if (mode != "all" && mode != "window") || (dir != "fwd" && dir != "bwd") then "bad-op" else
+      let getter : Option Cursor → Option Cursor → Int → List Cursor := fun a b lim =>
+        match tbl.find? (fun e => e.1 == (a, b, lim)) with
+        | some e => e.2
+        | none => []
+      let app : App Cursor := { allEdges := es, getter := getter, totalCount := tc }
+      let m : Mode := if mode == "all" then .all else .window
+      let dec := ApiFu.C09.Codec.Driver.decK
+      let enc := ApiFu.C09.Codec.Driver.encK
+      -- the client of Walk.lean with the concrete codec: pages in connection order, and the cursor
+      -- strings it sent, in the order it sent them
+      if dir == "fwd" then
+        match walkForward ltInt (isort ltInt) dec enc app m n (es.length + 1) none with
+        | none => "none"
+        | some pages =>
+          toString (Sexp.node "ok" [Sexp.list (pages.map ofInts),
+            Sexp.node "sent" (pages.dropLast.map fun p => Sexp.atom (match p.getLast? with | some c => enc c | none => ""))])
+      else
+        match walkBackward ltInt (isort ltInt) dec enc app m n (es.length + 1) none with
+        | none => "none"
+        | some pages =>
+          toString (Sexp.node "ok" [Sexp.list (pages.map ofInts),
+            Sexp.node "sent" ((pages.drop 1).reverse.map fun p => Sexp.atom (match p.head? with | some c => enc c | none => ""))])
+    | _, _, _, _ => "bad-op"
+  | some x =>
+    -- the cursor codec operations (b64enc, b64dec, cursor-enc, cursor-dec): CodecDriver.lean
+    match ApiFu.C09.Codec.Driver.handle? x with
+    | some r => r
+    | none => "bad-op"
+  | none => "bad-op"
 
 end ApiFu.C09.Driver
 
